@@ -700,7 +700,7 @@ func c19ColumnValues(data []byte) (cols map[string][]string, err error) {
 func RunC19Shredding(ctx *core.Ctx) {
 	ctx.SetRule(c19Rule)
 	nw := 8
-	total := ctx.Scale(320, 9600)
+	total := ctx.Scale(320, 3200)
 	var wg sync.WaitGroup
 	for w := 0; w < nw; w++ {
 		w := w
